@@ -137,6 +137,9 @@ impl Forge<Topic, LogId, Extensions> for OperationForge {
                 .insert_operation(&hash, &operation, &log_id)
                 .await?;
 
+            #[cfg(p2panda_p2panda_verif)]
+            p2panda_core::verif::point("forge.tx.before_commit").await;
+
             operation
         });
 
